@@ -18,8 +18,8 @@ ASSUMPTIONS = [
     'lifecycle hooks do not raise; no kill requests (C04)',
 ]
 BUDGET = {
-    'quick': {'enum': ['k1', 'k2', 'self2', 'listener'], 'hyp': 3000, 'shards': 8},
-    'thorough': {'enum': ['k1', 'k2', 'k3', 'k4w', 'self3', 'listener'], 'hyp': 120000, 'shards': 16},
+    'quick': {'enum': ['k1', 'k2', 'self2', 'listener', 'wc1', 'wc2'], 'hyp': 4000, 'shards': 8},
+    'thorough': {'enum': ['k1', 'k2', 'k3', 'k4w', 'self3', 'listener', 'wc1', 'wc2', 'wc3'], 'hyp': 120000, 'shards': 16},
 }
 ALPHABET = [['pause', 'pm'], ['pause', None], ['play'], ['resume', 1]]
 ALPHABET_SMALL = [['pause', 'pm'], ['play'], ['resume', 1]]
@@ -36,6 +36,11 @@ def enumerate_cases(tier, scope):
         for name in names:
             for sched in gen.schedules(alpha, k, max_gap):
                 yield {'program': cat[name], 'schedule': sched, 'tag': f'{scope}:{name}'}
+    elif scope in ('wc1', 'wc2', 'wc3'):
+        k = int(scope[2])
+        for name in gen.WC_CATALOGUE:
+            for sched in gen.schedules([['pause', 'pm'], ['play']] + gen.WC_EVENTS, k, 3 if k < 3 else 2):
+                yield dict(gen.base(name), schedule=sched, tag=f'{scope}:{name}')
     elif scope == 'k4w':
         for name in ('wait1', 'waitwait'):
             for sched in gen.schedules(ALPHABET_SMALL, 4, 2):
